@@ -174,7 +174,7 @@ def run_op(case):
     compared = compare_axioms(F, op_reference(n, adj, total, smart, plant, knuth, X), "OrderingPrinciple", case)
     labels = [case['cls'], 'complete' if case['edges'] is None else 'graph',
               'smart' if smart else ('total' if total else 'partial'), 'plant' if plant else 'noplant',
-              'knuth{}'.format(knuth)]
+              'knuth{}'.format(knuth if knuth in (2, 3) else (0 if not knuth else 'other'))]
     if compared:
         labels.append('axioms-compared')
     if n == 0:
@@ -199,7 +199,7 @@ def run_op(case):
 def _op_variants():
     for total, smart in ((False, False), (True, False), (False, True), (True, True)):
         for plant in (False, True):
-            for knuth in (0, 2, 3):
+            for knuth in (0, 2, 3, 1, 4, None):          # 'anything else suppresses it': 1, 4 and None are the plain formula
                 if smart and knuth:
                     continue
                 yield total, smart, plant, knuth
@@ -499,9 +499,37 @@ def run_pitfall(case):
         if got != want:
             raise Violation("Pitfall {}: hard part of copy {} is not the Tseitin formula of the graph {} with an odd charge on vertex 1 ({} missing, {} extra clauses)".format(
                 case, j, edges, len(want - got), len(got - want)))
+    # pitfall gadgets [MV20, and the comments of the generator]: in every copy, any two easy variables trigger every
+    # pitfall variable: y_a v y_b v ~p_t for all a<b and all t in 1..|E|+nz
+    y = names.group(dec, 'y')
+    p = names.group(dec, 'p')
+    expect_indices(y, [(j, i) for j in range(1, k + 1) for i in range(1, ny + 1)], "Pitfall y")
+    expect_indices(p, [(j, i) for j in range(1, k + 1) for i in range(1, nx + nz + 1)], "Pitfall p")
+    yv = {vid: key for key, vid in y.items()}
+    pv = {vid: key for key, vid in p.items()}
+    got = set()
+    for c in cls:
+        if len(c) == 3 and sorted(l > 0 for l in c) == [False, True, True]:
+            pos = [l for l in c if l > 0]
+            neg = [-l for l in c if l < 0]
+            if all(l in yv for l in pos) and neg[0] in pv:
+                got.add((frozenset(pos), neg[0]))
+    want = set()
+    for j in range(1, k + 1):
+        for a in range(1, ny + 1):
+            for b in range(a + 1, ny + 1):
+                for t in range(1, nx + nz + 1):
+                    want.add((frozenset((y[(j, a)], y[(j, b)])), p[(j, t)]))
+    if got != want:
+        raise Violation("Pitfall {}: the pitfall gadgets 'y_a v y_b v ~p_t' are not the documented ones: {} missing, {} extra".format(
+            case, len(want - got), len(got - want)))
+    # every part has a fixed number of clauses: hard (Tseitin) + pitfall + pipe + tail (4 per pair y,z) + easy part (one per pair of consecutive y)
+    exp_rows = k * (v * 2 ** (d - 1) + (ny * (ny - 1) // 2) * (nx + nz) + ny * (nx + nz) + 4 * ny * nz) + ny // 2
+    if len(cls) != exp_rows:
+        raise Violation("Pitfall {}: {} clauses, the five parts add up to {}".format(case, len(cls), exp_rows))
     if sat.is_sat(nv, cls):
         raise Violation("Pitfall {}: the formula is satisfiable".format(case))
-    return Outcome(labels=['unsat', 'k={}'.format(k), 'd={}'.format(d)], nontrivial=True)
+    return Outcome(labels=['unsat', 'k={}'.format(k), 'd={}'.format(d), 'ny={}'.format(min(ny, 3))], nontrivial=True)
 
 
 def enum_pitfall(tier):
@@ -712,8 +740,8 @@ NT = "non-trivial: >=2 variables and >=1 clause; distinct by parameters/edge lis
 
 SUBCHECKS = [
     SubCheck('op', run_op, enumerate_cases=enum_op, strategy=strat_op, quick=150, thorough=6000,
-             rule="OrderingPrinciple N<=5 (thorough 6) and GraphOrderingPrinciple on every graph with 1..4 vertices (Hypothesis: 5) x {partial,total,smart} x plant x knuth{0,2,3}; oracle: clause set == reference axioms by name, unsatisfiable (tt/DPLL), planted: satisfiable iff a linear order with only vertex n as local minimum exists (brute force); " + NT,
-             required_labels=['unsat', 'planted-sat', 'planted-unsat', 'knuth2', 'knuth3', 'smart', 'total', 'partial', 'graph', 'complete', 'axioms-compared']),
+             rule="OrderingPrinciple N<=5 (thorough 6) and GraphOrderingPrinciple on every graph with 1..4 vertices (Hypothesis: 5) x {partial,total,smart} x plant x knuth{0,2,3 and 1,4,None which the documentation declares equal to 0}; oracle: clause set == reference axioms by name, unsatisfiable (tt/DPLL), planted: satisfiable iff a linear order with only vertex n as local minimum exists (brute force); " + NT,
+             required_labels=['unsat', 'planted-sat', 'planted-unsat', 'knuth2', 'knuth3', 'knuthother', 'smart', 'total', 'partial', 'graph', 'complete', 'axioms-compared']),
     SubCheck('peb', run_peb, enumerate_cases=enum_peb, strategy=strat_peb, quick=150, thorough=5000,
              rule="PebblingFormula on every topologically sorted DAG <=5 (thorough 6) vertices, Hypothesis DAGs <=12 vertices, and every non-DAG on <=3 vertices (must raise ValueError); oracle: clause set == reference axioms, unsatisfiable; " + NT,
              required_labels=['unsat', 'dag-with-several-sinks', 'non-dag-rejected']),
@@ -724,8 +752,8 @@ SUBCHECKS = [
              rule="CPLSFormula a in 1..3(4), b in {1,2,3,4,6,8}, c in {1,2,3,4,5,8} up to 60 (110) variables; non powers of two must raise ValueError; oracle: clause set == axioms 1-3 with 0-based binary codes, unsatisfiable (tt/DPLL); " + NT,
              required_labels=['unsat', 'rejected-not-power-of-two']),
     SubCheck('pitfall', run_pitfall, enumerate_cases=enum_pitfall, max_shards=16,
-             rule="PitfallFormula over (v,d) in {(4,3),(4,2),(3,2),(5,2),(6,3),(5,4),(6,2)}, ny in 2..4, nz in 2..3, k in {2,4}, 3 (12) seeds of the global generator; oracle: variable count, d-regular graph, every copy's hard part == Tseitin clauses + safety variables, unsatisfiable (DPLL); non-trivial: all",
-             required_labels=['unsat', 'k=2', 'k=4']),
+             rule="PitfallFormula over (v,d) in {(4,3),(4,2),(3,2),(5,2),(6,3),(5,4),(6,2)}, ny in 2..4, nz in 2..3, k in {2,4}, 3 (12) seeds of the global generator; oracle: variable count, d-regular graph, every copy's pitfall gadgets == {y_a v y_b v ~p_t}, clause count == sum of the five parts, every copy's hard part == Tseitin clauses + safety variables, unsatisfiable (DPLL); non-trivial: all",
+             required_labels=['unsat', 'k=2', 'k=4', 'ny=3']),
     SubCheck('ramsey', run_ramsey, enumerate_cases=enum_ramsey,
              rule="RamseyNumber(s,k,N) s,k in 1..5, N in 0..5 (6); oracle: clause set == reference, model count == number of graphs on N vertices without s-independent set and k-clique (brute force over all graphs), known Ramsey numbers; " + NT,
              required_labels=['sat', 'unsat']),
